@@ -19,8 +19,8 @@ func init() {
 		Rule: "for every (path, document) of a hand-written pool covering every node kind and error consumer plus generated pairs, x 5 entry points x {verbose, silent} x {Canceled, DeadlineExceeded}: " +
 			"the context becomes done at the entry of evaluation step k (H1 step clock) for EVERY k = 0..K (K = steps of the uncancelled run); " +
 			"a case is non-trivial when K >= 2; distinct by (path, doc, entry, silent, cause, k)",
-		Run:    runC20,
-		Replay: func(c *h.Ctx, cs h.Case) { replayC20(c, cs) },
+		Run:          runC20,
+		Replay:       func(c *h.Ctx, cs h.Case) { replayC20(c, cs) },
 		MinExercised: map[string]int64{"outcome": 2000, "further-steps": 2000, "done-before-call": 100},
 		Assumptions: []string{
 			"cancellation is injected through a context.Context whose Done/Err flip is driven by the H1 step hook (logical clock), never by wall time",
@@ -31,7 +31,7 @@ func init() {
 
 type pd struct{ p, d string }
 
-var c20Vars = `{"v":1,"w":"ab","arr":[1,2,{"a":3}],"obj":{"a":1,"b":[1,2]},"nul":null}`
+var c20Vars = `{"v":1,"w":"ab","arr":[1,2,{"a":3}],"sarr":["ab","b",1],"obj":{"a":1,"b":[1,2]},"nul":null}`
 
 var c20Pool = []pd{
 	{`$`, `1`}, {`$.a`, `{"a":1}`}, {`$.a.b.c`, `{"a":{"b":{"c":1}}}`}, {`$.*`, `{"a":1,"b":2}`}, {`$[*]`, `[1,2,3]`},
